@@ -552,7 +552,10 @@ Section Reify.
                                    are not handed on *)
                                 match ft, x with
                                 | TPtr _, GPtrNil => OutOfModel      (* inline of a nil pointer *)
-                                | _, _ => reify_merge_value f (o', th, []) ft x cfg
+                                | _, _ =>
+                                  y <- reify_merge_value f (o', th, []) ft x cfg ;;
+                                  (* the field's validate tag applies to what was unpacked into it (fix F37) *)
+                                  _ <- run_validators (r_vo o) vts (view y) ;; Ok y
                                 end
                               | TSlice _ | TArray _ _ => reify_merge_value f (o', th, vts) ft x cfg
                               | _ => Err ETypeMismatch ""
